@@ -1412,9 +1412,8 @@ static void h_c_hook(const char *cmd, cfg_t *cfg)
 		H_LIB(sec = path ? cfg_getsec(cfg, path) : cfg);
 		if (sec) {
 			h_filt_purge();
-			for (i = h_nfilts - 1; i >= 0; i--)
-				if (h_filts[i].sec == sec)
-					h_filt_drop(i);
+			/* a replacement gets a DIFFERENT function than the one it replaces (the slot is chosen before
+			 * the old binding is dropped): a stale copy of the old pointer then shows */
 			for (f.slot = 0; f.slot < H_NSLOT; f.slot++) {
 				for (i = 0; i < h_nfilts && h_filts[i].slot != f.slot; i++)
 					;
@@ -1423,6 +1422,9 @@ static void h_c_hook(const char *cmd, cfg_t *cfg)
 			}
 			if (f.slot == H_NSLOT)
 				h_die("too many print filters");
+			for (i = h_nfilts - 1; i >= 0; i--)
+				if (h_filts[i].sec == sec)
+					h_filt_drop(i);
 			cfg_set_print_filter_func(sec, h_filter_fn[f.slot]);
 			f.names = h_xrealloc(NULL, (size_t)f.n * sizeof(char *));
 			for (i = 0; i < f.n; i++)
